@@ -5,6 +5,7 @@ package main
 // It loads /repo's current working tree from scratch, never executes repository code.
 
 import (
+	"encoding/json"
 	"flag"
 	"fmt"
 	"os"
@@ -37,8 +38,18 @@ func main() {
 	replay := flag.String("replay", "", "replay file written by a failing run: re-checks exactly those obligations")
 	tags := flag.String("tags", "", "build tags")
 	list := flag.Bool("list", false, "list properties")
+	explain := flag.Bool("explain", false, "print the registered explanation of every property as JSON")
 	flag.BoolVar(&noControls, "nocontrols", false, "skip the positive/negative controls of the thorough tier")
 	flag.Parse()
+	if *explain {
+		out := map[string]string{}
+		for id, d := range properties {
+			out[id] = d.explain
+		}
+		b, _ := json.MarshalIndent(out, "", " ")
+		fmt.Println(string(b))
+		return
+	}
 	if *list {
 		var ids []string
 		for id := range properties {
